@@ -9,7 +9,7 @@ from ..core import Ctx
 from ..effects import STORAGE_WRITES
 from ..flow import names_in
 from ..model import AnalysisError, FunctionInfo, dotted, norm_text
-from .common import owner_tops, edge_target, fold_str, hint_value, hint_writers, kwarg, path_arg, reachable_from
+from .common import owner_tops, resolve_value, edge_target, fold_str, hint_value, hint_writers, kwarg, path_arg, reachable_from
 
 EXPLANATION = (
     "Static analysis of the write-once namespace: every storage-API write site of the package is enumerated and "
@@ -142,7 +142,7 @@ def r1_fresh_names(ctx: Ctx, rid: str) -> None:
             top = top.parent
         owners = owner_tops(ctx, f)
         if s == hv:
-            ctx.ob(rid, f, f"{op}(HINT) only in sanctioned functions", n, bool(owners) and all(o.qname in sanctioned_hint for o in owners),
+            ctx.ob(rid, f, f"{op}(HINT) only in sanctioned functions", n, bool(owners) and all(ctx.prog.anchor(o) in sanctioned_hint for o in owners),
                    "the version hint has exactly two writers: table initialisation and the commit point",
                    nontrivial=False)
             continue
@@ -242,7 +242,7 @@ def r3(ctx: Ctx) -> None:
     ctx.rule("C09.R3", "who may delete: every delete-capable sink of the package lies in a sanctioned owner function", 14)
     for f, n, what in delete_sites(ctx):
         owners = owner_tops(ctx, f)
-        reasons = [DELETE_OWNERS.get(o.qname) for o in owners]
+        reasons = [DELETE_OWNERS.get(ctx.prog.anchor(o)) for o in owners]
         reason = reasons[0] if owners and all(r is not None for r in reasons) else None
         ctx.ob("C09.R3", f, f"{what} site", n, reason is not None,
                (f"sanctioned: {reason}" if reason else "a delete-capable call outside the sanctioned owners: files of "
@@ -269,10 +269,33 @@ def r4(ctx: Ctx) -> None:
     g = ctx.cfg(f)
     loops = [n for n in g.nodes if n.kind == "loop" and isinstance(n.ast, ast.For)]
     rev = [l for l in loops if "reversed" in norm_text(l.ast.iter) and "snapshot_log" in norm_text(l.ast.iter)]  # type: ignore[union-attr]
-    ctx.ob("C09.R4", f, "iterates snapshot_log newest-first", rev[0] if rev else None, bool(rev),
-           "commit recency is the order of snapshot_log, walked in reverse")
+
+    def _pick(e: Optional[ast.AST]) -> Optional[ast.AST]:
+        """expression form of the walk: next(<gen over reversed(log) if id in remaining>, default) / [<same>][0]"""
+        comp = None
+        if isinstance(e, ast.Call) and dotted(e.func) == "next" and e.args and isinstance(e.args[0], ast.GeneratorExp):
+            comp = e.args[0]
+        elif (isinstance(e, ast.Subscript) and isinstance(e.value, ast.ListComp) and isinstance(e.slice, ast.Constant)
+              and e.slice.value == 0):
+            comp = e.value
+        if comp is None or len(comp.generators) != 1:
+            return None
+        it = norm_text(comp.generators[0].iter)
+        if "reversed" in it and "snapshot_log" in it:
+            return comp
+        return None
+
     rets = [n for n in g.nodes if n.kind == "return" and n.ast is not None and n.ast.value is not None  # type: ignore[union-attr]
             and not (isinstance(n.ast.value, ast.Constant))]  # type: ignore[union-attr]
+    picks: List[Tuple[Node, ast.AST, int]] = []
+    for r in rets:
+        for src, sat in resolve_value(ctx, f, r.ast.value, r.id):  # type: ignore[union-attr]
+            comp = _pick(src)
+            if comp is not None:
+                picks.append((r, comp, sat))
+    walk = rev[0] if rev else (g.nodes[picks[0][2]] if picks else None)
+    ctx.ob("C09.R4", f, "iterates snapshot_log newest-first", walk, walk is not None,
+           "commit recency is the order of snapshot_log, walked in reverse")
     dom = ctx.dom(f, NORMAL)
     first_ok = False
     for r in rets:
@@ -281,6 +304,10 @@ def r4(ctx: Ctx) -> None:
             guards = [b for b in g.nodes if b.kind == "branch" and isinstance(b.ast, ast.Compare)
                       and isinstance(b.ast.ops[0], ast.In) and b.id in dom[r.id]]
             first_ok = bool(guards)
+    if not rev:
+        for r, comp, sat in picks:
+            conds = [c for c in comp.generators[0].ifs]  # type: ignore[attr-defined]
+            first_ok = any(isinstance(c, ast.Compare) and isinstance(c.ops[0], ast.In) for c in conds)
     ctx.ob("C09.R4", f, "returns the newest log entry that still exists", rets[0] if rets else None, first_ok,
            "the returned id is the latest snapshot_log entry whose snapshot remains")
     maxes = [n for n in g.calls() if n.callee and n.callee.name == "builtins.max"]
@@ -291,7 +318,7 @@ def r4(ctx: Ctx) -> None:
         if "snapshot_id" in txt and "timestamp" not in txt:
             bad.append(m)
         # the max() fallback must come after the log walk
-        if rev and m.id in reachable_from(g, g.entry, NORMAL) and rev[0].id not in dom[m.id]:
+        if walk is not None and m.id in reachable_from(g, g.entry, NORMAL) and walk.id not in dom[m.id]:
             bad.append(m)
     ctx.ob("C09.R4", f, "no max(snapshot_id) selection", bad[0] if bad else (maxes[0] if maxes else None), not bad,
            "snapshot ids are random; the fallback orders by timestamp and only after the log walk")
